@@ -1010,3 +1010,45 @@ Definition module_renders (sch : schema) (tbl : list (string * tmpl)) (cfg : lis
       if good then match tclose with Some t => exec sch t d | None => Err "no close template (send-close is off)" end
       else exec sch topen d
   end.
+
+(* ------------------------------------------------------------------------------------------ *)
+(* The data a module hands to its template (HTTPNotifier.Notify, EmailNotifier.Notify,         *)
+(* coordinator.go notifyModule / checkAndSendResponseToModules)                                *)
+(* ------------------------------------------------------------------------------------------ *)
+
+(* the record executeTemplate builds, before it becomes a template value; the status is left abstract *)
+Record tdata (R : Type) := mkTdata {
+  td_cluster : string; td_group : string; td_id : string;
+  td_start : Z;                                  (* nanoseconds since the epoch *)
+  td_extras : list (string * string);
+  td_result : R }.
+Arguments mkTdata {R}. Arguments td_cluster {R}. Arguments td_group {R}. Arguments td_id {R}.
+Arguments td_start {R}. Arguments td_extras {R}. Arguments td_result {R}.
+
+(* an incident of a group as the coordinator keeps it: the event id and the time it was opened *)
+Record incident := mkIncident { inc_id : string; inc_start : Z }.
+
+(* one notification handed to a module: the incident of the group and the evaluator's reply about it *)
+Record notification (R : Type) := mkNotification {
+  nt_incident : incident; nt_cluster : string; nt_group : string; nt_status : R }.
+Arguments mkNotification {R}. Arguments nt_incident {R}. Arguments nt_cluster {R}. Arguments nt_group {R}.
+Arguments nt_status {R}.
+
+(* what the templates of a module configured with [extras] are to be executed against for this notification:
+   cluster and group of the reply, the incident's id and START time, the configured extras, the reply *)
+Definition notify_data {R} (extras : list (string * string)) (n : notification R) : tdata R :=
+  mkTdata (nt_cluster n) (nt_group n) (inc_id (nt_incident n)) (inc_start (nt_incident n)) extras (nt_status n).
+
+(* the module as a state machine over the notifications it is handed: the state is what Notify can reach - the
+   module's extras map and how many notifications went before; Notify reads the map and leaves it alone *)
+Record mstate := mkMstate { ms_extras : list (string * string); ms_sent : nat }.
+
+Definition notify_step {R} (m : mstate) (n : notification R) : mstate * tdata R :=
+  (mkMstate (ms_extras m) (S (ms_sent m)),
+   mkTdata (nt_cluster n) (nt_group n) (inc_id (nt_incident n)) (inc_start (nt_incident n)) (ms_extras m) (nt_status n)).
+
+Fixpoint run_notifications {R} (m : mstate) (l : list (notification R)) : list (tdata R) :=
+  match l with
+  | [] => []
+  | n :: r => let '(m', d) := notify_step m n in d :: run_notifications m' r
+  end.
